@@ -27,6 +27,7 @@ type RefineOutput struct {
 // B.4 M
 type IntegratedPVMType struct {
 	ProgramCode ProgramCode    // p
+	Program     *Program       // deblob(p): code, bitmask and jump table the machine executes
 	Memory      Memory         // u
 	PC          ProgramCounter // i
 }
